@@ -25,7 +25,7 @@ class Rd:
 
 def parse_request(line):
     ws = line.split()
-    if ws and ws[0] not in ("plan", "sets"):
+    if ws and ws[0] not in ("plan", "sets", "gather"):
         return {"op": ws[0], "raw": ws, "sets": []}
     op, r = ws[0], Rd([int(x) for x in ws[1:]])
     order = r.many(r.nat)
@@ -58,6 +58,9 @@ def parse_request(line):
     case = {"op": op, "order": order, "sets": sets}
     if op == "plan":
         case["out"] = r.nat()
+    if op == "gather":
+        case["outputs"] = r.many(r.nat)
+        case["raw"] = ws
     return case
 
 
@@ -480,7 +483,36 @@ def oracle_c12(case, reply):
     return []
 
 
-ORACLES = {"C09": oracle_c09, "C12": oracle_c12, "C02": oracle_c02, "C05": oracle_c05, "C06": oracle_c06, "C07": oracle_c07,
+def oracle_c19(case, reply):
+    """`wire show` groups every type a set provides under exactly the set of types that must come from outside:
+    the types reachable through the (unique) sources' dependencies that the set does not provide"""
+    if case.get("op") != "gather":
+        return []
+    c = closures(case)[-1]
+    if not c.valid or c.chained:
+        return []
+    groups = {}
+    for t in case["outputs"]:
+        ins, seen, todo = set(), set(), [t]
+        while todo:
+            x = todo.pop()
+            if x in seen:
+                continue
+            seen.add(x)
+            for d in c.deps(x):
+                if d in c.src:
+                    todo.append(d)
+                else:
+                    ins.add(d)
+        groups.setdefault(frozenset(ins), []).append(t)
+    want = "groups " + " ".join(sorted(",".join(map(str, sorted(i))) + "|" + ",".join(map(str, sorted(o))) for i, o in groups.items()))
+    want = want.strip()
+    if reply.strip() != want:
+        return ["wire show groups the outputs of the set as %r; by the set's providers the groups (inputs|outputs) are %r" % (reply, want)]
+    return []
+
+
+ORACLES = {"C19": oracle_c19, "C09": oracle_c09, "C12": oracle_c12, "C02": oracle_c02, "C05": oracle_c05, "C06": oracle_c06, "C07": oracle_c07,
            "C08": oracle_c08, "C10": oracle_c10, "C11": oracle_c11}
 
 
